@@ -139,3 +139,12 @@ package symbols
 //@   modifies nothing
 //@   ensures forall j int, c ast.Constant :: 0 <= j && j < len(typeExprs) && member(typeCtx, result, c) ==> member(typeCtx, typeExprs[j], c)
 //@   loop 1 invariant forall j int, c ast.Constant :: 0 <= j && j < rangeindex + 1 && member(typeCtx, typeExpr, c) ==> member(typeCtx, typeExprs[j], c)
+
+// Accessors of a function type expression (ASSUMED: results arbitrary; used so that callers under contract do not
+// depend on their bodies).
+//@ func FunTypeArgs(tpe)
+//@   trusted
+//@   modifies nothing
+//@ func FunTypeResult(tpe)
+//@   trusted
+//@   modifies nothing
